@@ -108,11 +108,13 @@ type Ticker struct {
 	real *time.Ticker
 }
 
-func feed(c chan Time) func(int64) {
-	return func(now int64) {
+func feed(c chan Time) func(int64) bool {
+	return func(now int64) bool {
 		select {
 		case c <- at(now):
+			return true
 		default:
+			return false
 		}
 	}
 }
